@@ -23,6 +23,7 @@ var propTable = map[string]propFn{
 	"C17": checkC17,
 	"C18": checkC18,
 	"C19": checkC19,
+	"C20": checkC20,
 }
 
 func runProps(t0 time.Time) int {
